@@ -30,7 +30,7 @@ ID = "C16"
 LEVEL = "model_checking"
 
 ANTE_TOKENS = ["a", "o", "is", "t", "very", "not", "any", "and", "or", "(", ")", "zz"]
-CONS_TOKENS = ["o", "p", "a", "is", "t", "very", "any", "and", "or", "zz"]
+CONS_TOKENS = ["o", "p", "a", "is", "t", "w", "very", "any", "and", "zz"]
 FRAME_SYMBOLS = ["if", "then", "with", "a is t", "o is t", "0.5", "zz"]
 
 # single-edit classes that the statement lists ("never accepted")
@@ -47,13 +47,13 @@ def small_engine():
         input_variables=[fl.InputVariable("a", minimum=0.0, maximum=1.0, terms=terms()),
                          fl.InputVariable("b", minimum=0.0, maximum=1.0, terms=terms())],
         output_variables=[fl.OutputVariable("o", minimum=0.0, maximum=1.0, terms=terms()),
-                          fl.OutputVariable("p", minimum=0.0, maximum=1.0, terms=terms())],
+                          fl.OutputVariable("p", minimum=0.0, maximum=1.0, terms=[fl.Ramp("w", 0.0, 1.0)])],
         rule_blocks=[fl.RuleBlock("rb")],
     )
 
 
-SMALL_VOCAB = {"a": {"t", "u"}, "b": {"t", "u"}, "o": {"t", "u"}, "p": {"t", "u"}}
-SMALL_OUT = {"o": {"t", "u"}, "p": {"t", "u"}}
+SMALL_VOCAB = {"a": {"t", "u"}, "b": {"t", "u"}, "o": {"t", "u"}, "p": {"w"}}   # `t` is NOT a term of the output p
+SMALL_OUT = {"o": {"t", "u"}, "p": {"w"}}
 C06_OUT = {"o": {"p", "q"}}
 
 
@@ -104,7 +104,7 @@ def check_text(acc: Acc, ctx: Ctx, engine, vocab, out_vocab, text: str, family: 
                 acc.violate("loaded-after-failed-load", {"path": "reload"}, case, False, True,
                             f"{text!r}: a previously loaded rule still reports loaded after re-parsing and a failed load")
         acc.transitions += 1
-    demand = edit in LISTED and ref != "VALID"
+    demand = (edit in LISTED or family == "consequent") and ref != "VALID"
     acc.case(text, nontrivial=(ref != "VALID") or edit is None)
     if outcome != "accepted":
         if rule.is_loaded():
@@ -329,6 +329,14 @@ def run_shard(tier: str, seed: int, shard):
                     if n <= 4:
                         for tail in (" with 0.5", " with abc", " with 0.5 zz", " with"):
                             guarded(ctx.small, SMALL_VOCAB, SMALL_OUT, body + tail)
+        if part == 0:
+            # every (variable, term) pairing in 2- and 3-conclusion consequents: a term name must belong to ITS variable
+            names = ["t", "u", "w", "zz"]
+            for v1, t1, v2, t2 in itertools.product(("o", "p"), names, ("o", "p"), names):
+                guarded(ctx.small, SMALL_VOCAB, SMALL_OUT, f"if a is t then {v1} is {t1} and {v2} is {t2}")
+                for h in ("very", "any"):
+                    guarded(ctx.small, SMALL_VOCAB, SMALL_OUT, f"if a is t then {v1} is {h} {t1} and {v2} is {h} {t2} with 0.5")
+                guarded(ctx.small, SMALL_VOCAB, SMALL_OUT, f"if a is t then o is t and {v1} is {t1} and {v2} is {t2}")
     elif family == "edits":
         for text in base_rules():
             idx += 1
